@@ -40,6 +40,10 @@ CL = {2901: 'output naming accepted / refused against the rule', 2902: 'keys of 
       2914: 'recorded configuration is not the on-the-fly one',
       2915: 'on-the-fly result differs from the three stages run one by one',
       2916: 'an absolute path of the run appears in a cloud-safe output',
+      2931: 'dataset labels accepted / refused against the rule', 2932: 'a dataset without a file / a file without a dataset',
+      2933: 'a per-dataset file name differs', 2934: 'merged file missing or misnamed',
+      2935: 'per-dataset files do not add up to the run that does not split by dataset',
+      2936: 'a row of the merged file is not the row of the file the rule picks (most cells of that cluster)',
       2921: 'the validation runner failed on a file it must accept',
       2922: 'the valid file is not the one the rule names (written / copy of the input / the input)',
       2923: 'cells, genes or matrix of the valid file are not the expected ones',
@@ -282,6 +286,123 @@ def _pipeline_case(args):
         shutil.rmtree(d, ignore_errors=True)
 
 
+def _abc_case(args):
+    """PrecomputationABCRunner on a small data release whose cells carry the dataset labels of the scenario"""
+    scn, wd, full = args
+    import anndata
+    import h5py
+    import numpy as np
+    import pandas as pd
+    from harness import argshim
+    argshim.install()
+    from harness.checks import x03
+    from cell_type_mapper.cli.precompute_stats_abc import PrecomputationABCRunner
+    d = pathlib.Path(tempfile.mkdtemp(dir=wd))
+    rng = random.Random(scn['seed'])
+    try:
+        case = x03.gen_case(rng, 0)
+        case['extra_cols'] = False
+        x03.write_csvs(case, d)
+        labels = list(scn['labels'])
+        cells = [f'cell{r["cell"]}' for r in case['cel']]
+        # every label owns at least one cell; the rest round robin
+        extra = max(0, len(labels) - len(cells))
+        rows = []
+        for i, r in enumerate(case['cel']):
+            rows.append((f'cell{r["cell"]}', str(r['alias']), labels[i % len(labels)]))
+        for k in range(extra):
+            a0 = case['cel'][0]['alias']
+            rows.append((f'cellx{k}', str(a0), labels[len(cells) + k]))
+        with open(d / 'cell_metadata.csv', 'w') as f:
+            import csv
+            w = csv.writer(f)
+            w.writerow(['cell_label', 'cluster_alias', 'dataset_label'])
+            for r in rows:
+                w.writerow(r)
+        allcells = [r[0] for r in rows]
+        rng.shuffle(allcells)
+        half = len(allcells) // 2 or 1
+        G = 4
+        paths = []
+        for k, part in enumerate((allcells[:half], allcells[half:])):
+            if not part:
+                continue
+            X = np.array([[rng.choice([0, 0, 1, 2, 7, 30]) for _ in range(G)] for _ in part], dtype=float)
+            p = d / f'expr_{k}.h5ad'
+            with warnings.catch_warnings():
+                warnings.simplefilter('ignore')
+                anndata.AnnData(X=X, obs=pd.DataFrame(index=pd.Index(part, name='cell_label')),
+                                var=pd.DataFrame(index=pd.Index([f'g{j}' for j in range(G)], name='gene'))).write_h5ad(p)
+            paths.append(str(p))
+        (d / 'out').mkdir()
+        (d / 'scratch').mkdir()
+        base = {'h5ad_path_list': paths, 'cell_metadata_path': str(d / 'cell_metadata.csv'),
+                'cluster_annotation_path': str(d / 'cluster_annotation_term.csv'),
+                'cluster_membership_path': str(d / 'cluster_to_cluster_annotation_membership.csv'),
+                'hierarchy': [x03.lev_s(l) for l in case['hier']], 'normalization': 'raw', 'tmp_dir': str(d / 'scratch'),
+                'n_processors': rng.randint(1, 2), 'clobber': False}
+        rec = {'kind': 'datasets', 'labels': [list(x) for x in labels], 'ok': True, 'files': [], 'merged': True, 'additive': True,
+               'census': [], 'mergedn': [], 'matches': []}
+        with warnings.catch_warnings(), _quiet():
+            warnings.simplefilter('ignore')
+            r = PrecomputationABCRunner(args=[], input_data=dict(base, output_path=str(d / 'out' / 'stats.h5'),
+                                                                 split_by_dataset=True))
+            try:
+                if full:
+                    r.run()
+                    # run() builds the map itself (and leaves placeholder files): read the names from the directory
+                    m = {}
+                    for f_ in (d / 'out').iterdir():
+                        with h5py.File(f_, 'r') as h:
+                            md = json.loads(h['metadata'][()].decode())
+                        m[md.get('dataset', 'combined')] = str(f_)
+                else:
+                    m = r.create_dataset_to_output_map()
+            except Exception as e:                        # noqa
+                rec['ok'] = False
+                rec['error'] = f'{type(e).__name__}: {str(e)[:160]}'
+                return rec, None
+            for lab, pth in m.items():
+                nm_ = pathlib.Path(pth).name
+                if lab == 'combined':
+                    rec['merged'] = nm_ == 'stats.combined.h5'
+                    continue
+                mid = nm_[len('stats.'):-len('.h5')] if nm_.startswith('stats.') and nm_.endswith('.h5') else '?'
+                rec['files'].append({'label': list(lab), 'file': list(mid)})
+            rec['merged'] = rec['merged'] and 'combined' in m
+            if full:
+                PrecomputationABCRunner(args=[], input_data=dict(base, output_path=str(d / 'out_unsplit.h5'),
+                                                                 split_by_dataset=False)).run()
+
+                def load(pth):
+                    with h5py.File(pth, 'r') as h:
+                        c2r = json.loads(h['cluster_to_row'][()].decode())
+                        return {k: {cl: h[k][()][row] for cl, row in c2r.items()}
+                                for k in h.keys() if k in ('n_cells', 'sum', 'sumsq', 'gt0', 'gt1', 'ge1')}
+                comb = load(m['combined'])
+                uns = load(d / 'out_unsplit.h5')
+                part_paths = sorted(pth for lab, pth in m.items() if lab != 'combined')     # path order, as the merge sorts
+                parts = [load(pth) for pth in part_paths]
+                clusters = sorted(comb['n_cells'])
+                add_ok = sorted(uns) == sorted(comb)
+                for k in comb:
+                    for cl in clusters:
+                        tot = sum(np.asarray(p_[k].get(cl, 0), dtype=float) for p_ in parts)
+                        add_ok = add_ok and cl in uns[k] and bool(np.allclose(tot, uns[k][cl], rtol=1e-10, atol=1e-10))
+                rec['additive'] = bool(add_ok)
+                rec['census'] = [{'total': int(sum(int(p_['n_cells'][cl]) for cl in clusters)),
+                                  'n': [int(p_['n_cells'][cl]) for cl in clusters]} for p_ in parts]
+                rec['mergedn'] = [int(comb['n_cells'][cl]) for cl in clusters]
+                rec['matches'] = [[i + 1 for i, p_ in enumerate(parts)
+                                   if all(np.array_equal(np.asarray(p_[k][cl]), np.asarray(comb[k][cl])) for k in comb)]
+                                  for cl in clusters]
+        return rec, None
+    except Exception:
+        return None, traceback.format_exc()
+    finally:
+        shutil.rmtree(d, ignore_errors=True)
+
+
 def _validate_case(args):
     """a history of validations through ValidateH5adRunner: the valid file of one is the input of the next"""
     scn, wd = args
@@ -444,6 +565,24 @@ def run(ctx):
             recs.append(rec)
             owners.append({'validate': s})
         ctx.part('validate', histories=len(vscn))
+    if ctx.only in (None, 'abc'):
+        res = run_tlc('Runners_DMC', cfg_text='SPECIFICATION Spec\nCHECK_DEADLOCK FALSE\n', workers=1, timeout=3600)
+        ctx.add_tlc('Runners_DMC', res)
+        if not res.ok:
+            raise MachineryError('Runners_DMC: ' + (res.error_trace or res.stdout[-1500:]))
+        sets = [json.loads(t[1]) for t in res.tuples('SCN')]
+        oks = [x for x in sets if x['outcome'] == 'ok']
+        full_ids = set(id(x) for x in rng.sample(oks, min(len(oks), 6 if quick else 40)))
+        ascn = [{'labels': sorted(x['labels']), 'seed': rng.randint(0, 10 ** 6), 'full': id(x) in full_ids} for x in sets]
+        with cf.ProcessPoolExecutor(max_workers=8) as ex_:
+            outs = list(ex_.map(_abc_case, [(s_, wd, s_['full']) for s_ in ascn]))
+        for s_, (rec, err) in zip(ascn, outs):
+            if rec is None:
+                raise MachineryError(err)
+            ctx.count({'abc': s_}, nontrivial=len(s_['labels']) > 1)
+            recs.append(rec)
+            owners.append({'abc': s_})
+        ctx.part('abc', label_sets=len(ascn), run_in_full=len(full_ids))
     # uniform records for TLC
     lines = []
     for r in recs:
@@ -451,6 +590,9 @@ def run(ctx):
                 'existing': r.get('existing', []), 'ok': r.get('ok', True), 'map': r.get('map', []), 'back': r.get('back', True),
                 'failat': r.get('failat', 'none'), 'left': r.get('left', []), 'outputs': r.get('outputs', []),
                 'config': r.get('config', 'none'), 'same': r.get('same', True), 'clean': r.get('clean', True), 'events': [0],
+                'labels': r.get('labels', []) if r['kind'] == 'datasets' else [],
+                'files': r.get('files', []), 'merged': r.get('merged', True), 'additive': r.get('additive', True),
+                'census': r.get('census', []), 'mergedn': r.get('mergedn', []), 'matches': r.get('matches', []),
                 'fixed': r.get('fixed', False), 'unk': r.get('unk', False), 'nmapped': r.get('nmapped', 0),
                 'steps': [{k: st[k] for k in ('dest', 'ok', 'vkind', 'same', 'rec')} for st in r.get('steps', [])]}
         lines.append(base)
@@ -488,6 +630,11 @@ def replay(ctx, path):
     wd = str(ctx.tmpdir('x10_'))
     if 'names' in case:
         rec, err = _names_case((case['names'], wd))
+        if rec is None:
+            raise MachineryError(err)
+        print(json.dumps(rec)[:1500])
+    elif 'abc' in case:
+        rec, err = _abc_case((case['abc'], wd, case['abc'].get('full', False)))
         if rec is None:
             raise MachineryError(err)
         print(json.dumps(rec)[:1500])
